@@ -108,6 +108,7 @@ def _read_once(tr, case, entry):
         prints = []
         def ph(path, line, text):
             prints.append((path_to_id(root, path), line, text.strip()))
+        ph = dsdlio.handler_form(ph)      # any callable: function, bound method, partial, a falsy callable object in turn
         lookups = [tr.path("d2/b"), tr.path("d3/a")]
         try:
             # the directory / file arguments are documented as iterables: lists, tuples and one-shot iterables in turn
